@@ -577,3 +577,4 @@ theorem good_aCall : ∀ fuel, Good (aCall Fix.all fuel)
         have := R.2 hb'
         exact ⟨this.1.trans e1, this.2⟩
       | run e => exact aRun_good _ ih g k e hk
+      | defn i => exact ⟨PresX.refl none g, fun _ => ⟨rfl, rfl⟩⟩
